@@ -1,9 +1,292 @@
 /-
 C14, property theorems about the TRANSLATED cryptobyte-based decoders (part CH; see DESIGN.md 12.4).
 Same namespace as Props/C14.lean; listed in checks/C14.json under extra_props_files.
+
+`Gotlcp.Src.tlcp.codec.clientHelloMsg.unmarshal` / `Gotlcp.Src.dtlcp.codec.clientHelloMsg.unmarshal` are regenerated from
+{tlcp,dtlcp}/handshake_messages.go by `harness/cmd/go2lean` on every run (statement by statement; `cryptobyte.String`
+is the stub `cbString`, specified in `Gotlcp.Tie.CbString`).  Three layers:
+
+  * `Gotlcp.Tie.CodecCHTlcp` / `CodecCHDtlcp`: for EVERY receiver and EVERY byte string the translated text returns
+    what the specification `chSpecT` / `chSpecD` (pure functions on `List (BitVec 8)`, Gotlcp.Tie.CodecCH) says;
+  * `Gotlcp.Tie.CodecCHModel`: the specification is the hand model (`Model.Codec.sniStep`, `taStep`, `alpnStep`,
+    `clientExtCase`, `clientExtStep`, `decClientHelloBody`, instantiated with the regenerated facts), extension by
+    extension;
+  * `Gotlcp.Tie.CodecCHCodec`: both combined.
+
+So the translated ClientHello decoders return `(m', true)` with the model's fields exactly when the model decoder
+accepts the same bytes and `(_, false)` exactly when it refuses; the round-trip / strictness / re-encoding theorems of
+Props/C14.lean, stated about the model, are restated below for the source text.
 -/
-import Gotlcp.Tie.CbString
+import Gotlcp.Props.C14
+import Gotlcp.Tie.CodecCHCodec
 
 namespace Gotlcp.Props.C14
+open Gotlcp Gotlcp.Wire Gotlcp.Wire.Msg
+open Gotlcp.Model.Codec
+
+section SrcCH
+open Gotlcp.Tie.CbString Gotlcp.Tie.CodecCH Gotlcp.Tie.CodecCHModel Gotlcp.Tie.CodecCHCodec
+open Gotlcp.Tie.UnmarshalTlcpCodec (abs Agree)
+open Gotlcp.Tie.CodecSmall (agree_accept agree_refuse)
+
+/-- the literals the translated ClientHello decoders compare with (extension codes 0, 3, 5, 10, 13, 16, 66;
+identifier types 0, 2, 4, 5; `ReadBytes(…, 32)` twice; message type 1; where the curve / signature-algorithm
+lists are re-made) are the regenerated facts the model is instantiated with, and both decoders are in the
+guarded list -/
+theorem C14_src_codes_clientHello :
+    Src.untranslated = [] ∧ CodesOK codesT false ∧ CodesOK codesD true ∧
+    u8 codesT.tClientHello = UInt8.ofBitVec 1#8 ∧ codesT.complete.contains codesT.tClientHello = true ∧
+    u8 codesD.tClientHello = UInt8.ofBitVec 1#8 ∧ codesD.complete.contains codesD.tClientHello = true :=
+  ⟨by decide, codesT_ok, codesD_ok, codes_facts⟩
+
+/-! ### extension by extension: the specification's loop bodies are the model's -/
+
+/-- one server_name list entry (`for !nameList.Empty()`) -/
+theorem C14_src_spec_sniStep (v : CHv) (s : List (BitVec 8)) :
+    Model.Codec.sniStep (absCH v) (abs s) = (Gotlcp.Tie.CodecCH.sniStep v s).map absP :=
+  sniStep_model v s
+
+/-- one trusted authority (`for !taList.Empty()`), both stacks -/
+theorem C14_src_spec_taStep (v : CHv) (s : List (BitVec 8)) :
+    Model.Codec.taStep codesT (absCH v) (abs s) = (Gotlcp.Tie.CodecCH.taStep v s).map absP ∧
+    Model.Codec.taStep codesD (absCH v) (abs s) = (Gotlcp.Tie.CodecCH.taStep v s).map absP :=
+  ⟨taStep_model codesT false codesT_ok v s, taStep_model codesD true codesD_ok v s⟩
+
+/-- one ALPN protocol name (`for !protoList.Empty()`) -/
+theorem C14_src_spec_alpnStep (v : CHv) (s : List (BitVec 8)) :
+    Model.Codec.alpnStep (absCH v) (abs s) = (Gotlcp.Tie.CodecCH.alpnStep v s).map absP :=
+  alpnStep_model v s
+
+/-- the `switch extension { … }` (all seven cases and `default`), tlcp: `n` is the bound of the item loops -/
+theorem C14_src_spec_clientExtCase_tlcp (n : Nat) (v : CHv) (x : BitVec 16) (d : List (BitVec 8)) (hd : d.length < n) :
+    clientExtCase codesT (absCH v) x.toNat (abs d) = (extCaseS false n v x d).map absQ :=
+  extCase_model codesT false codesT_ok n v x d hd
+
+theorem C14_src_spec_clientExtCase_dtlcp (n : Nat) (v : CHv) (x : BitVec 16) (d : List (BitVec 8)) (hd : d.length < n) :
+    clientExtCase codesD (absCH v) x.toNat (abs d) = (extCaseS true n v x d).map absQ :=
+  extCase_model codesD true codesD_ok n v x d hd
+
+/-- one extension (`for !extensions.Empty()`) -/
+theorem C14_src_spec_clientExtStep_tlcp (n : Nat) (v : CHv) (s : List (BitVec 8)) (hs : s.length < n) :
+    clientExtStep codesT (absCH v) (abs s) = (extStepS false n v s).map absP :=
+  extStep_model codesT false codesT_ok n v s hs
+
+theorem C14_src_spec_clientExtStep_dtlcp (n : Nat) (v : CHv) (s : List (BitVec 8)) (hs : s.length < n) :
+    clientExtStep codesD (absCH v) (abs s) = (extStepS true n v s).map absP :=
+  extStep_model codesD true codesD_ok n v s hs
+
+/-! ### tlcp -/
+
+/-- `clientHelloMsg.unmarshal`, translated text against its specification: every receiver, every byte string -/
+theorem C14_src_clientHello_spec_tlcp (m : Src.tlcp.codec.clientHelloMsg) (data : List (BitVec 8)) :
+    Res Gotlcp.Tie.CodecCHTlcp.viewT (Src.tlcp.codec.clientHelloMsg.unmarshal m data) (chSpecT data) :=
+  Gotlcp.Tie.CodecCHTlcp.tie_clientHello m data
+
+/-- the specification is the model decoder on the same bytes -/
+theorem C14_src_clientHello_spec_is_model_tlcp (data : List (BitVec 8)) :
+    unmarshalClientHello codesT (abs data) =
+      match chSpecT data with
+      | some v => .ok (absCH v)
+      | none => .reject :=
+  spec_model_tlcp data
+
+/-- `clientHelloMsg.unmarshal`: accepted with the model's fields (version, random, session id, cipher suites,
+compression methods, server name, trusted authorities, OCSP flag, curves, signature algorithms, ALPN protocols,
+IBSDH client id), or refused like the model -/
+theorem C14_src_clientHello_tlcp (m : Src.tlcp.codec.clientHelloMsg) (data : List (BitVec 8)) :
+    Agree fieldsT (Src.tlcp.codec.clientHelloMsg.unmarshal m data) (unmarshalClientHello codesT (abs data)) :=
+  tie_codec_clientHello_tlcp m data
+
+/-- whatever the TRANSLATED decoder accepts the model accepts with the same fields -/
+theorem C14_src_accept_is_model_accept_clientHello_tlcp (m m' : Src.tlcp.codec.clientHelloMsg) (data : List (BitVec 8))
+    (h : Src.tlcp.codec.clientHelloMsg.unmarshal m data = .ok (m', true)) :
+    unmarshalClientHello codesT (abs data) = .ok (fieldsT m') :=
+  agree_accept (C14_src_clientHello_tlcp m data) h
+
+/-- whatever the TRANSLATED decoder refuses the model refuses -/
+theorem C14_src_refuse_is_model_refuse_clientHello_tlcp (m m' : Src.tlcp.codec.clientHelloMsg) (data : List (BitVec 8))
+    (h : Src.tlcp.codec.clientHelloMsg.unmarshal m data = .ok (m', false)) :
+    unmarshalClientHello codesT (abs data) = .reject :=
+  agree_refuse (C14_src_clientHello_tlcp m data) h
+
+/-- the accepted message keeps the input as `raw` -/
+theorem C14_src_clientHello_raw_tlcp (m m' : Src.tlcp.codec.clientHelloMsg) (data : List (BitVec 8))
+    (h : Src.tlcp.codec.clientHelloMsg.unmarshal m data = .ok (m', true)) : m'.raw = data :=
+  clientHello_raw_tlcp m m' data h
+
+/-- strictness (`C14_strict_clientHello_tlcp` through the tie): what the translated decoder accepts has exactly
+the standard's shape — the length fields agree, no trailing bytes -/
+theorem C14_src_strict_clientHello_tlcp (m m' : Src.tlcp.codec.clientHelloMsg) (data : List (BitVec 8))
+    (h : Src.tlcp.codec.clientHelloMsg.unmarshal m data = .ok (m', true)) :
+    Spec.Codec.shape .tlcp .clientHello (abs data) = true :=
+  C14_strict_clientHello_tlcp _ _ (C14_src_accept_is_model_accept_clientHello_tlcp m m' data h)
+
+/-- round trip (`C14_roundtrip_clientHello_tlcp` through the tie): the encoding of every in-range ClientHello is
+accepted by the translated decoder, whatever the receiver held, with exactly the encoded fields -/
+theorem C14_src_roundtrip_clientHello_tlcp (mm : ClientHello) (hw : Spec.Codec.wfClientHello .tlcp mm = true) :
+    ∃ b, encClientHello codesT mm = some b ∧
+      ∀ (m : Src.tlcp.codec.clientHelloMsg) (data : List (BitVec 8)), abs data = b →
+        ∃ m', Src.tlcp.codec.clientHelloMsg.unmarshal m data = .ok (m', true) ∧ fieldsT m' = mm := by
+  obtain ⟨b, he, hd⟩ := C14_roundtrip_clientHello_tlcp mm hw
+  refine ⟨b, he, ?_⟩
+  intro m data hab
+  have ha := C14_src_clientHello_tlcp m data
+  rw [hab, hd] at ha
+  exact ha
+
+/-- re-encoding (`C14_reencode_clientHello_tlcp` through the tie): every canonical encoding (the spec's strict
+decoder accepts it) is accepted by the translated decoder with the same fields -/
+theorem C14_src_reencode_clientHello_tlcp (m : Src.tlcp.codec.clientHelloMsg) (data : List (BitVec 8)) (h : DHdr)
+    (mm : ClientHello) (hs : Spec.Codec.strictClientHello .tlcp (abs data) = some (h, mm)) :
+    ∃ m', Src.tlcp.codec.clientHelloMsg.unmarshal m data = .ok (m', true) ∧ fieldsT m' = mm ∧
+      encClientHello codesT (fieldsT m') = some (abs data) := by
+  obtain ⟨he, hd, _⟩ := C14_reencode_clientHello_tlcp (abs data) h mm hs
+  have ha := C14_src_clientHello_tlcp m data
+  rw [hd] at ha
+  obtain ⟨m', e, hv⟩ := ha
+  exact ⟨m', e, hv, by rw [hv]; exact he⟩
+
+/-! ### dtlcp -/
+
+theorem C14_src_clientHello_spec_dtlcp (m : Src.dtlcp.codec.clientHelloMsg) (data : List (BitVec 8)) :
+    Res Gotlcp.Tie.CodecCHDtlcp.viewD (Src.dtlcp.codec.clientHelloMsg.unmarshal m data)
+      (Gotlcp.Tie.CodecCHDtlcp.chSpecD data) :=
+  Gotlcp.Tie.CodecCHDtlcp.tie_clientHello m data
+
+theorem C14_src_clientHello_spec_is_model_dtlcp (data : List (BitVec 8)) :
+    Model.CodecDtlcp.decClientHello codesD (abs data) =
+      match Gotlcp.Tie.CodecCHDtlcp.chSpecD data with
+      | some v => .ok (Gotlcp.Tie.UnmarshalDtlcpCodec.hdrView (Gotlcp.Tie.UnmarshalDtlcp.u16At data 4)
+          (Gotlcp.Tie.UnmarshalDtlcp.u24At data 6) (Gotlcp.Tie.UnmarshalDtlcp.u24At data 9), absCH v)
+      | none => .reject :=
+  spec_model_dtlcp data
+
+/-- `clientHelloMsg.unmarshal` (dtlcp): accepted with the model's header fields (message_seq, fragment_offset,
+fragment_length) and body fields (incl. the cookie), or refused like the model -/
+theorem C14_src_clientHello_dtlcp (m : Src.dtlcp.codec.clientHelloMsg) (data : List (BitVec 8)) :
+    Agree fieldsD (Src.dtlcp.codec.clientHelloMsg.unmarshal m data)
+      (Model.CodecDtlcp.decClientHello codesD (abs data)) :=
+  tie_codec_clientHello_dtlcp m data
+
+theorem C14_src_accept_is_model_accept_clientHello_dtlcp (m m' : Src.dtlcp.codec.clientHelloMsg) (data : List (BitVec 8))
+    (h : Src.dtlcp.codec.clientHelloMsg.unmarshal m data = .ok (m', true)) :
+    Model.CodecDtlcp.decClientHello codesD (abs data) = .ok (fieldsD m') :=
+  agree_accept (C14_src_clientHello_dtlcp m data) h
+
+theorem C14_src_refuse_is_model_refuse_clientHello_dtlcp (m m' : Src.dtlcp.codec.clientHelloMsg) (data : List (BitVec 8))
+    (h : Src.dtlcp.codec.clientHelloMsg.unmarshal m data = .ok (m', false)) :
+    Model.CodecDtlcp.decClientHello codesD (abs data) = .reject :=
+  agree_refuse (C14_src_clientHello_dtlcp m data) h
+
+theorem C14_src_clientHello_raw_dtlcp (m m' : Src.dtlcp.codec.clientHelloMsg) (data : List (BitVec 8))
+    (h : Src.dtlcp.codec.clientHelloMsg.unmarshal m data = .ok (m', true)) : m'.raw = data :=
+  clientHello_raw_dtlcp m m' data h
+
+/-- strictness (`C14_strict_clientHello_dtlcp` through the tie) -/
+theorem C14_src_strict_clientHello_dtlcp (m m' : Src.dtlcp.codec.clientHelloMsg) (data : List (BitVec 8))
+    (h : Src.dtlcp.codec.clientHelloMsg.unmarshal m data = .ok (m', true)) :
+    Spec.Codec.shape .dtlcp .clientHello (abs data) = true :=
+  C14_strict_clientHello_dtlcp _ _ (C14_src_accept_is_model_accept_clientHello_dtlcp m m' data h)
+
+/-- round trip (`C14_roundtrip_clientHello_dtlcp` through the tie) -/
+theorem C14_src_roundtrip_clientHello_dtlcp (h : DHdr) (mm : ClientHello)
+    (hw : Spec.Codec.wfClientHello .dtlcp mm = true)
+    (hh : ∀ body, encClientHelloBody codesD true mm = some body → Spec.Codec.wfDHdr h body.length = true) :
+    ∃ b body, encClientHelloBody codesD true mm = some body ∧ Model.CodecDtlcp.encClientHello codesD h mm = some b ∧
+      ∀ (m : Src.dtlcp.codec.clientHelloMsg) (data : List (BitVec 8)), abs data = b →
+        ∃ m', Src.dtlcp.codec.clientHelloMsg.unmarshal m data = .ok (m', true) ∧
+          fieldsD m' = (⟨h.seq, 0, body.length⟩, mm) := by
+  obtain ⟨b, body, hb, he, hd⟩ := C14_roundtrip_clientHello_dtlcp h mm hw hh
+  refine ⟨b, body, hb, he, ?_⟩
+  intro m data hab
+  have ha := C14_src_clientHello_dtlcp m data
+  rw [hab, hd] at ha
+  exact ha
+
+/-- re-encoding (`C14_reencode_clientHello_dtlcp` through the tie) -/
+theorem C14_src_reencode_clientHello_dtlcp (m : Src.dtlcp.codec.clientHelloMsg) (data : List (BitVec 8)) (h : DHdr)
+    (mm : ClientHello) (hs : Spec.Codec.strictClientHello .dtlcp (abs data) = some (h, mm)) :
+    ∃ m', Src.dtlcp.codec.clientHelloMsg.unmarshal m data = .ok (m', true) ∧ fieldsD m' = (h, mm) ∧
+      Model.CodecDtlcp.encClientHello codesD h mm = some (abs data) := by
+  obtain ⟨he, hd, _⟩ := C14_reencode_clientHello_dtlcp (abs data) h mm hs
+  have ha := C14_src_clientHello_dtlcp m data
+  rw [hd] at ha
+  obtain ⟨m', e, hv⟩ := ha
+  exact ⟨m', e, hv, he⟩
+
+/-! ### non-vacuity -/
+
+/-- accepted with exactly these fields (for `decide`d examples; `Except` has no `DecidableEq`) -/
+def accT (x : Except String (Src.tlcp.codec.clientHelloMsg × Bool)) (v : CHv) : Bool :=
+  match x with
+  | .ok (m, true) => decide (Gotlcp.Tie.CodecCHTlcp.viewT m = v)
+  | _ => false
+def accD (x : Except String (Src.dtlcp.codec.clientHelloMsg × Bool)) (v : CHv) : Bool :=
+  match x with
+  | .ok (m, true) => decide (Gotlcp.Tie.CodecCHDtlcp.viewD m = v)
+  | _ => false
+/-- refused (not an error) -/
+def rej {M : Type} (x : Except String (M × Bool)) : Bool :=
+  match x with
+  | .ok (_, false) => true
+  | _ => false
+
+/-- a ClientHello with server_name "a", two curves and ALPN "h2" -/
+def helloT : List (BitVec 8) :=
+  [1, 0, 0, 72, 1, 1] ++ List.replicate 32 7 ++ [0, 0, 2, 0xe0, 0x53, 1, 0] ++
+    [0, 29, 0, 0, 0, 6, 0, 4, 0, 0, 1, 0x61, 0, 10, 0, 6, 0, 4, 0, 41, 0, 23, 0, 16, 0, 5, 0, 3, 2, 0x68, 0x32]
+
+-- the translated decoder accepts it and decodes these fields …
+example : accT (Src.tlcp.codec.clientHelloMsg.unmarshal {} helloT)
+    { raw := helloT, vers := 0x0101#16, random := List.replicate 32 7, suites := [0xe053#16], compression := [0],
+      serverName := [0x61], curves := [41#16, 23#16], alpn := [[0x68, 0x32]] } = true := by decide
+-- … the specification says the same …
+example : chSpecT helloT = some
+    { raw := helloT, vers := 0x0101#16, random := List.replicate 32 7, suites := [0xe053#16], compression := [0],
+      serverName := [0x61], curves := [41#16, 23#16], alpn := [[0x68, 0x32]] } := by decide
+-- … and so does the model
+example : unmarshalClientHello codesT (abs helloT) =
+    .ok ⟨(1, 1), List.replicate 32 7, [], [], [(0xe0, 0x53)], [0], [0x61], [], false, [(0, 41), (0, 23)], [], [[0x68, 0x32]], []⟩ := by
+  decide
+-- refused: a server name ending in a dot ("a." — the `strings.HasSuffix` check inside the name loop)
+example : rej (Src.tlcp.codec.clientHelloMsg.unmarshal {}
+    ([1, 0, 0, 54, 1, 1] ++ List.replicate 32 7 ++ [0, 0, 2, 0xe0, 0x53, 1, 0] ++
+      [0, 11, 0, 0, 0, 7, 0, 5, 0, 0, 2, 0x61, 0x2e])) = true := by decide
+-- refused: one byte too many after the ALPN list inside its extension
+example : rej (Src.tlcp.codec.clientHelloMsg.unmarshal {}
+    ([1, 0, 0, 54, 1, 1] ++ List.replicate 32 7 ++ [0, 0, 2, 0xe0, 0x53, 1, 0] ++
+      [0, 11, 0, 16, 0, 7, 0, 4, 3, 0x68, 0x32, 0x33, 0])) = true := by decide
+-- refused: truncated (the 24-bit length disagrees)
+example : rej (Src.tlcp.codec.clientHelloMsg.unmarshal {} (helloT.take 60)) = true := by decide
+
+/-- the same hello for dtlcp: message_seq 1, cookie aa bb -/
+def helloD : List (BitVec 8) :=
+  [1, 0, 0, 75, 0, 1, 0, 0, 0, 0, 0, 75, 1, 1] ++ List.replicate 32 7 ++ [0, 2, 0xaa, 0xbb, 0, 2, 0xe0, 0x53, 1, 0] ++
+    [0, 29, 0, 0, 0, 6, 0, 4, 0, 0, 1, 0x61, 0, 10, 0, 6, 0, 4, 0, 41, 0, 23, 0, 16, 0, 5, 0, 3, 2, 0x68, 0x32]
+
+example : accD (Src.dtlcp.codec.clientHelloMsg.unmarshal {} helloD)
+    { raw := helloD, seq := 1#16, fragOff := 0#32, fragLen := 75#32, vers := 0x0101#16, random := List.replicate 32 7,
+      cookie := [0xaa, 0xbb], suites := [0xe053#16], compression := [0],
+      serverName := [0x61], curves := [41#16, 23#16], alpn := [[0x68, 0x32]] } = true := by decide
+-- two supported-curves extensions: the dtlcp text keeps the list of the LAST one (it re-makes the list) …
+example : accD (Src.dtlcp.codec.clientHelloMsg.unmarshal {}
+    ([1, 0, 0, 60, 0, 0, 0, 0, 0, 0, 0, 60, 1, 1] ++ List.replicate 32 7 ++ [0, 0, 0, 2, 0xe0, 0x53, 1, 0] ++
+      [0, 16, 0, 10, 0, 4, 0, 2, 0, 41, 0, 10, 0, 4, 0, 2, 0, 23]))
+    { raw := [1, 0, 0, 60, 0, 0, 0, 0, 0, 0, 0, 60, 1, 1] ++ List.replicate 32 7 ++ [0, 0, 0, 2, 0xe0, 0x53, 1, 0] ++
+        [0, 16, 0, 10, 0, 4, 0, 2, 0, 41, 0, 10, 0, 4, 0, 2, 0, 23],
+      fragLen := 60#32, vers := 0x0101#16, random := List.replicate 32 7, suites := [0xe053#16], compression := [0],
+      curves := [23#16] } = true := by decide
+-- … the tlcp text appends
+example : accT (Src.tlcp.codec.clientHelloMsg.unmarshal {}
+    ([1, 0, 0, 59, 1, 1] ++ List.replicate 32 7 ++ [0, 0, 2, 0xe0, 0x53, 1, 0] ++
+      [0, 16, 0, 10, 0, 4, 0, 2, 0, 41, 0, 10, 0, 4, 0, 2, 0, 23]))
+    { raw := [1, 0, 0, 59, 1, 1] ++ List.replicate 32 7 ++ [0, 0, 2, 0xe0, 0x53, 1, 0] ++
+        [0, 16, 0, 10, 0, 4, 0, 2, 0, 41, 0, 10, 0, 4, 0, 2, 0, 23],
+      vers := 0x0101#16, random := List.replicate 32 7, suites := [0xe053#16], compression := [0],
+      curves := [41#16, 23#16] } = true := by decide
+-- refused: fragment_length disagrees with the body length (the complete-message guard)
+example : rej (Src.dtlcp.codec.clientHelloMsg.unmarshal {} (helloD.set 11 74)) = true := by decide
+
+end SrcCH
 
 end Gotlcp.Props.C14
